@@ -14,7 +14,7 @@ case "$what" in
 esac
 mkdir -p $vm
 rsync -a --delete --exclude 'harness/target' --exclude 'harness-reg/target' --exclude 'build/cli-target*' --exclude 'build/*/run' \
-      --exclude '.git' --exclude 'replays' /verif/ $vm/
+      --exclude '.git' --exclude 'replays' /verif/ $vm/ || [ $? -eq 24 ]   # 24 = a file vanished while copying (concurrent build)
 cd $vm
 rm -rf replays
 VERIF_REPO=$wt ./check $pid $tier | grep -E "^(VIOLATION|KNOWN-FINDING)" | head -8
